@@ -27,7 +27,8 @@ PatternCells == UNION {PatternFor(b) : b \in Sizes}
 DBitsApprox(limb, ps) == ps + ps * limb - limb
 PermutedFor(b, l) == {[family |-> "permuted", bits |-> b, limb |-> l, psize |-> ps] :
                     ps \in {x \in 3..63 : x % 2 = 1 /\ x < l /\ 10 * DBitsApprox(l, x) <= b + 20}}
-PermutedCells == UNION {PermutedFor(bl[1], bl[2]) : bl \in Sizes \X {8, 16, 32, 64}}
+\* large limbs on long moduli are reached by no smaller denominator: always part of the grid
+PermutedCells == UNION {PermutedFor(bl[1], bl[2]) : bl \in (Sizes \X {8, 16, 32, 64}) \cup ({3072, 4096} \X {64})}
 CfCells == {[family |-> "cf", bits |-> b, w1 |-> w[1], w2 |-> w[2]] :
               b \in Sizes, w \in {<<8, 8>>, <<16, 24>>, <<32, 32>>, <<64, 64>>, <<40, 64>>, <<63, 7>>}}
 LhwCells == {[family |-> "lhw", bits |-> b, h1 |-> h[1], h2 |-> h[2]] :
